@@ -128,7 +128,7 @@ Start(c) ==
 \* ------------------------------------------------------------------- Init
 \* owner::init_send_tx: sender address = address 0 of the SOURCE account; the context only
 \* keeps the derivation index (and, when late-locked, the whole InitTxArgs)
-Init(ms) ==
+DoInit(ms) ==
   LET c == ms.c
       p == SlateProof(SenderAddr(c), c.req, NoSig)
       cx == [ex |-> TRUE, acct |-> SrcEff(c), amt |-> IF c.late THEN c.amt ELSE SlateAmt(c),
@@ -151,7 +151,7 @@ LockEntry(cx, sel, sp, kern) ==
 
 ObsEnt(e) == [ex |-> e.ex, acct |-> e.acct, kern |-> e.kern, proof |-> e.proof]
 
-Lock(ms, stage) ==
+DoLock(ms, stage) ==
   LET sp == IF stage = "S1" THEN ms.s1 ELSE ms.rp
       kern == IF stage = "S1" THEN "spart" ELSE "final"
   IN IF ~ms.ctx.ex \/ (stage = "S2" /\ ~ms.got)
@@ -162,7 +162,7 @@ Lock(ms, stage) ==
 \* ---------------------------------------------------------------- Receive
 \* foreign::receive_tx: signs <<slate.amount, Excess(both), proof.sender_address>> with address 0
 \* of the DESTINATION account - whatever proof.receiver_address says
-Receive(ms) ==
+DoReceive(ms) ==
   LET c == ms.c
       rp == [ms.s1 EXCEPT !.rs = PSig(SignerAddr(c), ms.amt, "final", ms.s1.sa)]
   IN [ms EXCEPT !.rp = rp, !.got = TRUE, !.last = [op |-> "receive", res |-> "ok", proof |-> rp]]
@@ -191,7 +191,7 @@ TamperProof(p, t, amt, rk) ==
     [] t = "raddr"          -> [p EXCEPT !.ra = ThirdAddr]
     [] t = "saddr"          -> [p EXCEPT !.sa = ThirdAddr]
     [] t = "saddr_sig"      -> [p EXCEPT !.sa = ThirdAddr, !.rs = PSig(rk, amt, "final", ThirdAddr)]
-Tamper(ms, t) ==
+DoTamper(ms, t) ==
   LET rp == IF ms.got THEN TamperProof(ms.rp, t, ms.amt, SignerAddr(ms.c)) ELSE ms.rp
   IN [ms EXCEPT !.rp = rp, !.last = [op |-> "tamper", res |-> IF ms.got THEN "ok" ELSE "skip", proof |-> rp]]
 
@@ -219,7 +219,7 @@ LateRequestOK(cx, p) == p.has /\ p.ra = cx.req
 \* tx::update_stored_tx: kernel := final excess; proof info rewritten from the slate with the
 \* sender's signature over <<amount, final excess, SLATE's sender address>> by the ACTIVE
 \* account's address key.
-Finalize(ms, fapi) ==
+DoFinalize(ms, fapi) ==
   LET c == ms.c
       cx == ms.ctx
       p == ms.rp
@@ -245,7 +245,7 @@ Finalize(ms, fapi) ==
 
 \* ----------------------------------------------------------------- Export
 \* owner::retrieve_payment_proof by slate id: exactly one entry in the ACTIVE account
-Export(ms) ==
+DoExport(ms) ==
   LET e == ms.ent
       active == ms.c.actF
       amount == IF e.cr >= e.db THEN e.cr - e.db ELSE e.db - e.cr - e.fee
@@ -256,11 +256,11 @@ Export(ms) ==
      ELSE [ms EXCEPT !.exp = p, !.hasexp = TRUE, !.last = [op |-> "export", res |-> "ok", proof |-> p]]
 
 \* ------------------------------------------------------------------ chain
-Mine(ms)   == IF ms.fin = "ok"
+DoMine(ms)   == IF ms.fin = "ok"
               THEN [ms EXCEPT !.chain = @ \cup {"final"}, !.last = [op |-> "mine", res |-> "ok", onchain |-> TRUE]]
               ELSE [ms EXCEPT !.last = [op |-> "mine", res |-> "skip", onchain |-> FALSE]]
 \* a longer fork from the block before the one that holds the transaction
-Fork(ms)   == [ms EXCEPT !.chain = @ \ {"final"}, !.last = [op |-> "fork", res |-> "ok", onchain |-> FALSE]]
+DoFork(ms)   == [ms EXCEPT !.chain = @ \ {"final"}, !.last = [op |-> "fork", res |-> "ok", onchain |-> FALSE]]
 
 \* ----------------------------------------------------------------- Verify
 \* single-field mutations of an exported proof (MutFields names the changed fields)
@@ -307,7 +307,7 @@ VerifyProof(p, chain) ==
   ELSE "ok"
 
 \* verifier v = <<wallet, active account>>: the result also says whose address 0 it is
-Verify(ms, m, vaddr) ==
+DoVerify(ms, m, vaddr) ==
   IF ~ms.hasexp THEN [ms EXCEPT !.last = [op |-> "verify", res |-> "skip", proof |-> NoProof, onchain |-> FALSE,
                                           smine |-> FALSE, rmine |-> FALSE]]
   ELSE LET p == Mut(ms.exp, m)
@@ -322,16 +322,16 @@ VerifierAddr(v) == Addr(v, "a0")               \* verifying wallets other than w
 VAddr(ms, v) == IF v = SenderW THEN Addr(SenderW, ms.c.actF) ELSE IF v = RecipW THEN Addr(RecipW, ms.c.actR) ELSE VerifierAddr(v)
 
 Step(ms, i) ==
-  CASE i.op = "init"     -> Init(ms)
-    [] i.op = "lock"     -> Lock(ms, i.a)
-    [] i.op = "receive"  -> Receive(ms)
-    [] i.op = "tamper"   -> Tamper(ms, i.a)
-    [] i.op = "finalize" -> Finalize(ms, i.b)
-    [] i.op = "export"   -> Export(ms)
-    [] i.op = "mine"     -> Mine(ms)
-    [] i.op = "fork"     -> Fork(ms)
-    [] i.op = "remine"   -> Mine(ms)
-    [] i.op = "verify"   -> Verify(ms, i.a, VAddr(ms, i.v))
+  CASE i.op = "init"     -> DoInit(ms)
+    [] i.op = "lock"     -> DoLock(ms, i.a)
+    [] i.op = "receive"  -> DoReceive(ms)
+    [] i.op = "tamper"   -> DoTamper(ms, i.a)
+    [] i.op = "finalize" -> DoFinalize(ms, i.b)
+    [] i.op = "export"   -> DoExport(ms)
+    [] i.op = "mine"     -> DoMine(ms)
+    [] i.op = "fork"     -> DoFork(ms)
+    [] i.op = "remine"   -> DoMine(ms)
+    [] i.op = "verify"   -> DoVerify(ms, i.a, VAddr(ms, i.v))
 
 \* the send itself
 SendProg(c) ==
